@@ -528,6 +528,7 @@ class EZSP:
 
     async def write_config(self, config: dict) -> None:
         """Initialize EmberZNet Stack."""
+        user_settings = set(config)
         config = self._protocol.SCHEMAS[conf.CONF_EZSP_CONFIG](config)
 
         # Not all config will be present in every EZSP version so only use valid keys
@@ -550,9 +551,17 @@ class EZSP:
                 ezsp_config.pop(name, None)
                 continue
 
+            # Values filled in by the schema are our defaults, not the user's: like the
+            # defaults above they must not shrink a table the NCP already made larger
+            default = ezsp_config.get(name)
             ezsp_config[name] = RuntimeConfig(
                 config_id=t.EzspConfigId[name],
                 value=value,
+                minimum=(
+                    name not in user_settings
+                    and default is not None
+                    and default.minimum
+                ),
             )
 
         # Make sure CONFIG_PACKET_BUFFER_COUNT is always set last
